@@ -41,6 +41,7 @@ type pipeCase struct {
 	Lang      *langCase         `json:"lang"`  // a J5Lang construct (printed with langFiles)
 	Rules     *rlReflectCase    `json:"rules"` // a J5Rules declaration: every rule / annotation of the catalogue (printed with rlFileText)
 	Cls       string            `json:"cls"`
+	Image     bool              `json:"image"` // proto_root: the tree is an API (app / dep packages); carry on to the image stages
 	AST       json.RawMessage   `json:"ast"` // {"pkgs": [...]}: a bundle of spec/J5Schema.tla
 }
 
@@ -942,7 +943,7 @@ func pipelineDriver(raw json.RawMessage) *Out {
 	} else {
 		stages["print"] = "violated"
 	}
-	if c.ProtoRoot != "" {
+	if c.ProtoRoot != "" && !c.Image {
 		return out
 	}
 	// ---- Image: the route the tool takes is the printed files; fall back to the compiled descriptors
@@ -1001,6 +1002,34 @@ func pipelineDriver(raw json.RawMessage) *Out {
 		stages["import-api"], stages["re-export"] = "ok", "ok"
 	} else {
 		stages["import-api"] = "violated"
+	}
+	// ---- partial images (C15): the tool builds one bundle at a time, so an image names only the bundle's own packages and
+	// every other package the files refer to is exported as an "indirect" package. Each local package in turn is the only
+	// named one; the export of that image must re-import and re-export like the full one.
+	if locals := localPackages(originals); len(locals) > 1 {
+		partial := map[string]string{}
+		for _, p := range locals {
+			pimg := proto.Clone(img).(*source_j5pb.SourceImage)
+			pimg.Packages = []*source_j5pb.PackageInfo{{Name: p, Label: p}}
+			var papi *source_j5pb.API
+			if err, _ := stage("source-api", func() error {
+				var e error
+				papi, e = structure.APIFromImage(pimg)
+				return e
+			}); err != nil {
+				// not C15's subject: the export itself failed
+				partial[p] = "source-api: " + errClass(err.Error())
+				continue
+			}
+			nv := len(out.Viol)
+			c15Check(out, cls+"|partial", papi)
+			if len(out.Viol) == nv {
+				partial[p] = "ok"
+			} else {
+				partial[p] = "violated"
+			}
+		}
+		out.Events = append(out.Events, map[string]any{"op": "partial-images", "packages": partial})
 	}
 	// ---- ClientAPI, JSONRender, OpenAPI (C16)
 	var client *client_j5pb.API
